@@ -16,7 +16,10 @@ inductive Op where
   | resolve (k : String)
 deriving Repr
 
-def dset (d : Data) (k : String) (v : Nat) : Data := (d.filter (·.1 != k)) ++ [(k, v)]
+/-- `self.data[k] = v` on a Python dict: an existing key keeps its position (the order of the keys decides ties in
+    `best_match`), a new key is appended -/
+def dset (d : Data) (k : String) (v : Nat) : Data :=
+  if d.any (·.1 == k) then d.map (fun kv => if kv.1 == k then (k, v) else kv) else d ++ [(k, v)]
 
 /-- `iorClears = false` is the pinned code (UserDict.__ior__ bypasses __setitem__), `true` the repaired one -/
 def step (iorClears : Bool) (f : Data → String → Option Nat) (s : St) : Op → St × Option (Option Nat)
@@ -90,6 +93,55 @@ theorem ior_stale_witness :
     let s2 := (step false f s1 (.ior [("application/x", 7)])).1
     (step false f s2 (.resolve "application/x")).2 = some none ∧ f s2.data "application/x" = some 7 := by
   decide
+
+/-! ### the other mutators of the mapping, as histories of the basic operations
+
+`update` calls `__setitem__` per item, `pop`/`popitem`/`clear` go through `__delitem__`, `setdefault` through
+`__setitem__` when the key is missing, and `copy()` builds a fresh object (same items in the same order, empty memo)
+— which on the state is exactly an eviction of the whole memo. -/
+inductive XOp where
+  | base (op : Op)
+  | update (kvs : Data)
+  | pop (k : String)
+  | setdefault (k : String) (v : Nat)
+  | popitem
+  | copy
+deriving Repr
+
+def hasKey (d : Data) (k : String) : Bool := d.any (·.1 == k)
+
+def lower (s : St) : XOp → List Op
+  | .base op => [op]
+  | .update kvs => kvs.map (fun kv => .set kv.1 kv.2)
+  | .pop k => if hasKey s.data k then [.del k] else []
+  | .setdefault k v => if hasKey s.data k then [] else [.set k v]
+  | .popitem => match s.data.head? with      -- MutableMapping.popitem: the FIRST key
+    | some kv => [.del kv.1]
+    | none => []
+  | .copy => [.evict s.cache.length]
+
+def xstep (f : Data → String → Option Nat) (s : St) (x : XOp) : St := runOps f s (lower s x)
+
+def xrun (f : Data → String → Option Nat) (s0 : St) (xs : List XOp) : St := xs.foldl (xstep f) s0
+
+theorem xrun_coherent (f : Data → String → Option Nat) : ∀ (xs : List XOp) (s0 : St),
+    Coherent f s0 → Coherent f (xrun f s0 xs) := by
+  intro xs
+  induction xs with
+  | nil => intro s0 h0; exact h0
+  | cons x rest ih => intro s0 h0; exact ih _ (history_coherent f (lower s0 x) s0 h0)
+
+/-- **never a stale handler**, for histories over all mutators (set / delete / update / pop / popitem / clear /
+    setdefault / `|=` / copy / LRU evictions) interleaved with resolutions -/
+theorem resolve_fresh_x (f : Data → String → Option Nat) (xs : List XOp) (s0 : St) (h0 : Coherent f s0) (k : String) :
+    (step true f (xrun f s0 xs) (.resolve k)).2 = some (f (xrun f s0 xs).data k) :=
+  resolve_on_coherent f _ (xrun_coherent f xs s0 h0) k
+
+/-- `copy()` preserves the mapping, also the empty one (F09 was `Handlers(self.data or defaults)`), and starts with an
+    empty memo -/
+theorem copy_preserves_mapping (f : Data → String → Option Nat) (s : St) :
+    (xstep f s .copy).data = s.data ∧ (xstep f s .copy).cache = [] := by
+  simp [xstep, lower, runOps, step]
 
 #print axioms resolve_fresh
 #print axioms ior_stale_witness
